@@ -36,6 +36,10 @@ def gen_dir(rng, nbases=None, defect=None):
         # file bases of which one is a proper prefix of another in the same sub-directory ('basis' / 'basis20' in fam0): the index
         # builder must tell their files apart by the full 'base.' prefix
         base = ['basis', 'basis2', 'basis20', 'basis1'][bi] if bi < 4 else 'basis%d' % bi
+        if bi == 1 and rng.random() < 0.4:
+            # the same file base as the first basis, in the other sub-directory (fam1/basis.* next to fam0/basis.*): the index builder
+            # must go by directory and file base, not by file base alone
+            base = 'basis'
         nm = rng.choice(['Gen-%d' % bi, 'gen/%d*' % bi, 'GEN %d (x)' % bi])
         fam = 'fam%d' % (bi % 2)
         versions = sorted(set(rng.sample(['0', '1', '2'], rng.randrange(1, 3))))
@@ -81,10 +85,43 @@ def gen_dir(rng, nbases=None, defect=None):
                           tags=[], basename=base, relpath=fam, family=fam, role='orbital', function_types=[], auxiliaries={},
                           versions=entry_versions)
         info['bases'].append((key, sorted(entry_versions)))
+    # two elements whose components carry the same descriptions and, taken together, the same keys - split differently between the
+    # components (41: [] + [k], 42: [k] + []): their reference groups differ although descriptions and flattened keys agree
+    if not defect and rng.random() < 0.6 and info['bases']:
+        key, vers = info['bases'][0]
+        tp = index[key]['versions'][vers[0]]['file_relpath']
+        ep = next(iter(files[tp]['elements'].values()))
+        k = rng.choice(refkeys)
+        for nm, r41, r42 in (('twinA', [], [k]), ('twinB', [k], [])):
+            els = {}
+            for z, r in (('41', r41), ('42', r42)):
+                el = genbasis.gen_element(rng, harm, kind='plain')
+                el['references'] = list(r)
+                els[z] = el
+            files['fam0/%s.0.json' % nm] = dict(molssi_bse_schema=dict(SCHEMA['component']), description='twin component ' + nm[-1], data_source='generated', elements=els)
+        for z in ('41', '42'):
+            files[ep]['elements'][z] = dict(components=['fam0/twinA.0.json', 'fam0/twinB.0.json'])
+            files[tp]['elements'][z] = ep
+        index[key]['versions'][vers[0]]['elements'] = sorted(files[tp]['elements'], key=int)
+    # notes: of some basis sets and of the families, mentioning reference keys of every shape (plain text files next to the JSON files)
+    allkeys = refkeys + ODD_KEYS
+    basenames = [index[key]['basename'] for key, _ in info['bases']]
+    for key, vers in info['bases']:
+        # the library looks for `<data_dir>/<file base>.notes` (the store keeps everything in one directory)
+        if rng.random() < 0.6 and basenames.count(index[key]['basename']) == 1:
+            ks = rng.sample(allkeys, rng.randrange(0, 3))
+            files['%s.notes' % index[key]['basename']] = 'Notes for %s\n\nsee %s and others.\n' % (index[key]['display_name'], ', '.join(ks))
+    for fam in sorted(set(e['family'] for e in index.values())):
+        if rng.random() < 0.6:
+            ks = rng.sample(allkeys, rng.randrange(1, 4))
+            files['NOTES.' + fam] = 'Family %s\n\nas described in %s\n' % (fam, ' '.join(ks))
     if defect:
         plant(rng, files, index, info, defect)
     return files, index, info
 
+
+# reference keys that do not look like authorYEARletter (the store has such keys: dyallXXXXa, ccrepo, gaussian09e01)
+ODD_KEYS = ['oddXXXXa', 'ccodd', 'program09e01']
 
 DEFECTS = ['missing_element_in_component', 'two_ecps', 'missing_component_file', 'missing_metadata_file', 'table_element_not_in_element_file',
            'component_without_references', 'element_without_components']
@@ -133,7 +170,10 @@ def write_dir(path, files, index, references=None):
         fp = os.path.join(path, p)
         os.makedirs(os.path.dirname(fp), exist_ok=True)
         with open(fp, 'w', encoding='utf-8') as fh:
-            json.dump(js, fh, indent=2, ensure_ascii=False)
+            if isinstance(js, str):
+                fh.write(js)          # a notes file
+            else:
+                json.dump(js, fh, indent=2, ensure_ascii=False)
     with open(os.path.join(path, 'METADATA.json'), 'w', encoding='utf-8') as fh:
         json.dump(index, fh, indent=2, ensure_ascii=False)
     refs = references if references is not None else default_references()
@@ -143,6 +183,9 @@ def write_dir(path, files, index, references=None):
 
 def default_references():
     refs = {'molssi_bse_schema': dict(schema_type='references', schema_version='0.1')}
+    for i, odd in enumerate(ODD_KEYS):
+        refs[odd] = dict(_entry_type='misc', authors=['Odd, K. %d' % i], title='Entry with the unusual key %s' % odd, year=str(2001 + i),
+                         note='key shape %d' % i)
     for i in range(6):
         refs['ref%d' % i] = dict(_entry_type='article', authors=['Author %d, A.' % i, 'Other, B. C.'], title='Title of reference %d' % i,
                                  journal='J. Gen. Chem.', volume=str(10 + i), pages='%d-%d' % (100 * i, 100 * i + 9), year=str(1990 + i),
